@@ -150,6 +150,24 @@ class Interp:
                 self.ctx.fail(f"{self.t}/{where}/wrong-length-data-inside", f"{self.t}: block of {self.n} frames contains a track whose arrays have {sorted(true_lengths(self.t, x))} frames")
         if len(self.b) != len(self.model):
             self.ctx.fail(f"{self.t}/{where}/len", f"{self.t}: len() is {len(self.b)}, expected {len(self.model)}")
+        # label access describes the same list: the first track carrying a label, and nothing that is not in the list
+        labels_now = [x.label for x in self.model]
+        for lab in dict.fromkeys(labels_now + [f"k{self.counter}", f"w", "w1", "w2", "rw", "f", "duck", f"r{self.counter}", "callers-own"]):
+            want = next((x for x in self.model if x.label == lab), None)
+            try:
+                got = self.b[lab]
+            except KeyError:
+                got = None
+            except Exception as e:  # noqa
+                got = e
+            try:
+                inside = lab in self.b
+            except Exception as e:  # noqa
+                inside = e
+            if got is not want or inside is not (want is not None):
+                self.ctx.fail(f"{self.t}/{where}/label-access-differs-from-track-list",
+                              f"{self.t}: after {where}: block[{lab!r}] gives {'nothing' if got is None else getattr(got, 'label', repr(got)[:40])!r} and ({lab!r} in block) is {inside!r}; "
+                              f"the track list holds {labels_now}")
         w = specs.lib_write(self.b)
         if self.b.nBytes != len(w):
             self.ctx.fail(f"{self.t}/{where}/nBytes", f"{self.t}: nBytes {self.b.nBytes} but encoding has {len(w)} bytes")
